@@ -418,3 +418,30 @@ pub fn main_attrs(args: &[String]) {
     }
     out.flush().unwrap();
 }
+
+/// `stunh xor <out> <seed> <n>`: XorMappedAddress::new(addr, tid) -> wire -> decode under the same and another id
+pub fn main_xor(args: &[String]) {
+    use rand::{rngs::StdRng, Rng, SeedableRng};
+    let mut out = std::io::BufWriter::new(std::fs::File::create(&args[0]).expect("out"));
+    let seed: u64 = args[1].parse().unwrap();
+    let n: usize = args[2].parse().unwrap();
+    let mut rng = StdRng::seed_from_u64(seed);
+    for i in 0..n {
+        let a = crate::gen::rand_addr(&mut rng);
+        let tw: u128 = match i % 4 { 0 => 0, 1 => (1u128 << 96) - 1, _ => rng.gen::<u128>() >> 32 };
+        let ow: u128 = match i % 3 { 0 => tw ^ 1, 1 => tw ^ (1u128 << 95), _ => rng.gen::<u128>() >> 32 };
+        let (tid, other) = (TransactionId::from(tw), TransactionId::from(ow));
+        let x = XorMappedAddress::new(a, tid);
+        let raw = x.to_raw();
+        let wire = raw.to_bytes();
+        let mut wbuf = vec![0u8; x.padded_len()];
+        let wn = x.write_into(&mut wbuf).unwrap_or(0);
+        let back = XorMappedAddress::from_raw(&raw).map(|y| (y.addr(tid), y.addr(other)));
+        let (b1, b2) = match back { Ok((p, q)) => (addr_json(p), addr_json(q)), Err(_) => (json!(null), json!(null)) };
+        let aj = addr_json(a);
+        writeln!(out, "{}", json!({"fam": aj["fam"], "ip": aj["ip"], "port": aj["port"], "tid": tw.to_be_bytes()[4..].to_vec(),
+            "other_tid": ow.to_be_bytes()[4..].to_vec(), "wire": wire, "back": b1, "back_other": b2,
+            "write_same": wn == wbuf.len() && wbuf == wire})).unwrap();
+    }
+    out.flush().unwrap();
+}
